@@ -415,6 +415,7 @@ func runRns(seed int64, histories, steps int, out *Emitter) {
 			}
 		}
 		qr := rand.New(rand.NewSource(seed*7919 + int64(hi) + 29))
+		var pgr *pager
 		for i := 0; i < steps; i++ {
 			if restartsOn && qr.Intn(150) == 0 {
 				// the network restarts from its own exported genesis (and runs its first block)
@@ -433,6 +434,15 @@ func runRns(seed int64, histories, steps int, out *Emitter) {
 					out.Emit(map[string]interface{}{"mod": "panic", "where": "block", "h": c.H, "panic": fmt.Sprint(p)})
 					break
 				}
+			}
+			if queriesOn && qr.Intn(4) == 0 { // a query record: the query server answers on the current state
+				if pgr == nil {
+					pgr = newPager(qr)
+				}
+				qst := c.rnsAbs(g.tracked)
+				q, resp, kind := rnsQueryStep(c, qr, pgr, g.actors)
+				out.Emit(map[string]interface{}{"mod": "query", "sub": "rns", "hist": hi, "i": i, "h": c.H, "state": qst, "q": q, "resp": resp})
+				out.Count("query.rns."+kind, resp != "err")
 			}
 			msg, op := g.next()
 			respell(g, msg, op)
